@@ -128,6 +128,9 @@ type localDef struct {
 	// alias: the variable is a field of a local struct value that was assigned as a whole
 	// (snap = curr): it equals that (virtual) local of the source struct
 	alias *types.Var
+	// retAt > 0: the expression is a result of a function walked in place; it is to be read with the
+	// definitions in force at that return event
+	retAt int
 }
 
 // fbuilder turns condition expressions into formulas.
